@@ -141,7 +141,7 @@ def isFn : DS → Bool
 mutual
 /-- early errors inside a statement (`top` = the statement is an item of a function body / program) -/
 def earlyS : DS → Bool
-  | .ifS _ t e => isFn t || isFn e || earlyS t || earlyS e
+  | .ifS _ t e => earlyS t || earlyS e
   | .block l => earlyScope [] l
   | .forS _ i _ _ b =>
       constNoInit i || hasDup ((lexDeclsS i).map (·.1)) || meets ((lexDeclsS i).map (·.1)) (varNamesL b)
@@ -152,7 +152,7 @@ def earlyS : DS → Bool
 /-- early errors of a block-like statement list; `outer` = names that must not be redeclared lexically -/
 def earlyScope (outer : List String) : List DS → Bool
   | l => hasDup (lexNamesL l) || meets (lexNamesL l) (varNamesL l) || meets (lexNamesL l) outer
-      || l.any isFn || earlyItems l
+      || earlyItems l
 /-- early errors of a function body / program -/
 def earlyBody (params : List String) : List DS → Bool
   | l => hasDup (lexNamesL l) || meets (lexNamesL l) (varNamesL l) || meets (lexNamesL l) params
@@ -162,12 +162,27 @@ def earlyItems : List DS → Bool
   | s :: t => earlyS s || earlyItems t
 end
 
+mutual
+/-- function declarations only as items of a function body / the program (elsewhere: outside the fragment) -/
+def fragS : DS → Bool
+  | .ifS _ t e => !isFn t && !isFn e && fragS t && fragS e
+  | .block l => !l.any isFn && fragL l
+  | .forS _ _ _ _ b => !b.any isFn && fragL b
+  | .tryS b _ _ cb => !b.any isFn && !cb.any isFn && fragL b && fragL cb
+  | .fn _ _ _ body => fragL body
+  | _ => true
+def fragL : List DS → Bool
+  | [] => true
+  | s :: t => fragS s && fragL t
+end
+
 /-! ## values, state, outcome -/
 
 inductive Val where
   | undef | null
   | bool (b : Bool)
   | num (n : Int)
+  | nan
   | str (s : String)
   | host (name : String)
   | err (cls : String)
@@ -179,6 +194,7 @@ def Val.shw : Val → String
   | .undef => "undefined" | .null => "null"
   | .bool b => if b then "true" else "false"
   | .num n => toString n
+  | .nan => "NaN"
   | .str s => "\"" ++ s ++ "\""
   | .host n => "host:" ++ n
   | .err c => "error:" ++ c
@@ -278,11 +294,12 @@ def truthy : Val → Bool
   | .undef => false | .null => false
   | .bool b => b
   | .num n => n != 0
+  | .nan => false
   | .str s => s != ""
   | _ => true
 
 def typeofVal : Val → String
-  | .undef => "undefined" | .null => "object" | .bool _ => "boolean" | .num _ => "number"
+  | .undef => "undefined" | .null => "object" | .bool _ => "boolean" | .num _ => "number" | .nan => "number"
   | .str _ => "string" | .host _ => "function" | .err _ => "object" | .clo _ _ _ => "function"
 
 def strictEq : Val → Val → Bool
@@ -293,14 +310,27 @@ def strictEq : Val → Val → Bool
   | .host a, .host b => a == b
   | _, _ => false
 
-/-- arithmetic on numbers; anything else is outside the fragment -/
+/-- `undefined` and `NaN` as operands of arithmetic -/
+def isNanLike : Val → Bool
+  | .undef => true
+  | .nan => true
+  | _ => false
+
+def isNumLike : Val → Bool
+  | .num _ => true
+  | v => isNanLike v
+
+/-- arithmetic on numbers (`undefined` counts as `NaN`); other operand kinds are outside the fragment -/
 def binVal (op : BinOp) (a b : Val) : M Val :=
   match op, a, b with
+  | .seq, a, b => retM (.bool (strictEq a b))
   | .add, .num x, .num y => retM (.num (x + y))
   | .sub, .num x, .num y => retM (.num (x - y))
   | .lt, .num x, .num y => retM (.bool (x < y))
-  | .seq, a, b => retM (.bool (strictEq a b))
-  | _, _, _ => stuckM "binVal"
+  | op, a, b =>
+    if isNumLike a && isNumLike b && (op == .add || op == .sub || op == .lt) then
+      retM (if op == .lt then .bool false else .nan)
+    else stuckM "binVal"
 
 /-- scope record of a block: all lexical names uninitialised -/
 def lexScope (ds : List (String × Bool)) : Scope := fun x =>
@@ -341,6 +371,8 @@ def eval : DE → Env → M Val
   | .postinc x _, env => bindM (getVar env x) (fun v =>
       match v with
       | .num n => bindM (setVar env x (.num (n + 1))) (fun _ => retM (.num n))
+      | .undef => bindM (setVar env x .nan) (fun _ => retM .nan)
+      | .nan => bindM (setVar env x .nan) (fun _ => retM .nan)
       | _ => stuckM "postinc")
   | .call f args, env => bindM (eval f env) (fun fv => bindM (evalL args env) (fun vs =>
       match fv with
@@ -463,10 +495,12 @@ def globalInst (prog : List DS) (lexId : Nat) (g : Scope) : Scope := fun x =>
 
 inductive Result where
   | syntaxError
+  | unsupported
   | done (c : Out Compl)
 
 /-- a whole program from the initial state `s0` (its scope 0 is the global object) -/
 def runProg (H : Host) (depth : Nat) (prog : List DS) (s0 : St) : Result :=
+  if !fragL prog then .unsupported else
   if earlyBody [] prog then .syntaxError else
   let lexId := s0.heap.length
   let h1 := (s0.heap.modify 0 (globalInst prog lexId)) ++ [lexScope (lexDeclsL prog)]
